@@ -196,6 +196,11 @@ static void c10_body(const struct rcfg *c)
   reproc_stop_actions k = { { REPROC_STOP_KILL, REPROC_INFINITE }, { REPROC_STOP_NOOP, 0 }, { REPROC_STOP_NOOP, 0 } };
   reproc_stop(p, k);
   hx_destroy(p);
+  /* the objects the caller lent (handles, FILEs, its own standard streams) are still the caller's: a close of one of them is recorded by the
+   * descriptor ledger and not carried out, so its consequences (the next stream that refers to the same number gets nothing or something else)
+   * would not show in the identities above */
+  if (vk_foreign_closes)
+    vk_violation("C10", "callers-object-closed", key, "the library tried to close %d descriptor(s) that belong to the caller (a lent handle/FILE or a standard stream of the parent)", vk_foreign_closes);
   for (int i = 0; i < 3; i++) {
     if (user_fd[i] >= 0) {
       struct ident_obj now;
@@ -368,7 +373,7 @@ static void c11_two_starts(long k)
   /* k >= 9: the second child is started in fork mode (no exec follows: close-on-exec protects nothing there) */
   int fork2 = k >= 9;
   if (fork2) k -= 9;
-  int L1 = l1s[k % 3], L2 = l2s[k % 3], rc = (int) (k / 3) % 3;
+  int L1 = l1s[k % 3], L2 = l2s[k % 3], rc = (int) (k / 3) % (fork2 ? 5 : 3);
   memset(&vk_cfg, 0, sizeof vk_cfg);
   vk_cfg.real_exec = 1;
   vk_cfg.vlimit = L1;
@@ -381,6 +386,9 @@ static void c11_two_starts(long k)
   memset(&o, 0, sizeof o);
   if (rc == RC_PIPES) o.redirect.err.type = REPROC_REDIRECT_PIPE;
   if (rc == RC_DISCARD) o.redirect.discard = true;
+  /* (fork mode only) stderr taken from another standard descriptor: the forked side makes a private copy of it first, which must be gone again */
+  if (rc == 3) { o.redirect.out.type = REPROC_REDIRECT_PARENT; o.redirect.err.type = REPROC_REDIRECT_STDOUT; }
+  if (rc == 4) { o.redirect.err.type = REPROC_REDIRECT_HANDLE; o.redirect.err.handle = 1; }
   vk_script("");
   vk_script("");
   reproc_t *p1 = hx_new();
@@ -413,7 +421,7 @@ static void c11_two_starts(long k)
   for (int i = 0; i < 3; i++) close(fds[i]);
 }
 
-#define NTWO 18
+#define NTWO 24
 static long c11_n(int tier) { return (long) (tier ? 5 : 3) * NRC * 243 + NTWO; }
 
 const struct hx_harness h_c10 = { "C10", "h_c10", c10_n, c10_run, redir_clauses, NULL };
